@@ -220,6 +220,8 @@ def gen_extra(r, state, rem):
 def check(ctx):
     r = ctx.fork("states")
     n = ctx.budget(1200, 20000)
+    if ctx.searching:
+        n = min(n, 5000)          # keeps the failing-input search of the quick tier within a few minutes
     cases = [(s, k) for s, k in FIXED]
     for _ in range(n):
         cases.append((gen_state(r), r.randint(1, 20)))
